@@ -53,6 +53,93 @@ Proof.
   rewrite Hfil. destruct (jlookup (field_key f) kv); simpl; [reflexivity | apply andb_true_r].
 Qed.
 
+Lemma keys_in_order_In k : forall l seen,
+  In k (keys_in_order l seen) <-> In k (map n_key l) /\ ~ In k seen.
+Proof.
+  induction l as [|n r IH]; intros seen; simpl; [tauto|].
+  destruct (mem (n_key n) seen) eqn:M.
+  - apply mem_In in M. rewrite IH. split.
+    + intros [H1 H2]. auto.
+    + intros [[E | H1] H2]; [subst k; contradiction | auto].
+  - apply mem_false_In in M. simpl. rewrite IH. simpl. split.
+    + intros [E | [H1 H2]]; [subst k; auto | split; [auto | intro; apply H2; auto]].
+    + intros [[E | H1] H2]; [left; exact E|].
+      destruct (string_dec (n_key n) k) as [E | E]; [left; exact E | right].
+      split; [exact H1 | intros [E' | H3]; [contradiction | contradiction]].
+Qed.
+
+(* a key that occurs once: its node is alone in the filter *)
+Lemma filter_count_single (nodes : list cnode) n :
+  count_key (n_key n) (map n_key nodes) = 1 -> In n nodes ->
+  filter (fun m => String.eqb (n_key m) (n_key n)) nodes = [n].
+Proof.
+  unfold count_key. induction nodes as [|m r IH]; intros Hc Hin; [contradiction|].
+  simpl in Hc |- *. destruct Hin as [E | Hin].
+  - subst m. rewrite String.eqb_refl in Hc |- *. simpl in Hc. f_equal.
+    assert (Hz : List.length (filter (String.eqb (n_key n)) (map n_key r)) = 0) by lia.
+    clear - Hz. induction r as [|x r IHr]; [reflexivity|]. simpl in Hz |- *.
+    rewrite (String.eqb_sym (n_key x)). destruct (String.eqb (n_key n) (n_key x)); [discriminate Hz | apply IHr, Hz].
+  - rewrite (String.eqb_sym (n_key m)). destruct (String.eqb (n_key n) (n_key m)) eqn:E.
+    + simpl in Hc. exfalso.
+      assert (Hpos : List.length (filter (String.eqb (n_key n)) (map n_key r)) >= 1).
+      { clear - Hin. induction r as [|x r IHr]; [contradiction|]. simpl. destruct Hin as [E | Hin].
+        - subst x. rewrite String.eqb_refl. simpl. lia.
+        - destruct (String.eqb (n_key n) (n_key x)); simpl; [lia | apply IHr, Hin]. }
+      lia.
+    + apply IH; auto.
+Qed.
+
+Lemma conf_obj_flat_dup rec S tn fns kv :
+  dup_ok fns = true ->
+  conf_obj_gen false rec S tn (Some (map (node_of_fnode false) fns)) kv = true ->
+  (forall p, In p kv -> In (fst p) (map field_key fns)) /\ forallb (key_spec rec S tn kv) fns = true.
+Proof.
+  intros Hd H. unfold conf_obj_gen in H.
+  set (nodes := map (node_of_fnode false) fns) in *.
+  assert (Hk : map n_key nodes = map field_key fns) by (unfold nodes; rewrite map_map; reflexivity).
+  simpl orb in H. apply andb_true_iff in H as [H1 H2]. rewrite forallb_forall in H1, H2.
+  split.
+  - intros p Hp. specialize (H1 p Hp). apply mem_In in H1. apply keys_in_order_In in H1.
+    destruct H1 as [H1 _]. rewrite <- Hk. exact H1.
+  - apply forallb_forall. intros f Hf.
+    assert (Hin : In (node_of_fnode false f) nodes) by (unfold nodes; apply in_map, Hf).
+    assert (Hkey : In (field_key f) (keys_in_order nodes [])).
+    { apply keys_in_order_In. split; [| intros []]. rewrite Hk. apply in_map, Hf. }
+    specialize (H2 _ Hkey). unfold conf_key in H2. unfold key_spec.
+    set (ns := filter (fun n => String.eqb (n_key n) (field_key f)) nodes) in *.
+    assert (Hfns : In (node_of_fnode false f) ns).
+    { unfold ns. apply filter_In. split; [exact Hin | apply String.eqb_refl]. }
+    unfold dup_ok in Hd. rewrite forallb_forall in Hd.
+    destruct (Nat.eqb (count_key (field_key f) (map field_key fns)) 1) eqn:Ec.
+    + apply Nat.eqb_eq in Ec. rewrite <- Hk in Ec.
+      assert (Ens : ns = [node_of_fnode false f]) by (apply (filter_count_single nodes (node_of_fnode false f)); auto).
+      rewrite Ens in H2. destruct (jlookup (field_key f) kv); simpl in H2 |- *; [exact H2|].
+      rewrite andb_true_r in H2. exact H2.
+    + pose proof (Hd f Hf) as Hdf. rewrite Ec in Hdf. simpl in Hdf. apply andb_true_iff in Hdf as [Hleaf Hsame].
+      rewrite forallb_forall in Hsame.
+      (* every node of this key is a leaf selection of the same field *)
+      assert (Hall : forall n, In n ns -> n_name n = fn_name f /\ n_sub n = None).
+      { intros n Hn. unfold ns in Hn. apply filter_In in Hn. destruct Hn as [Hn Hkn].
+        unfold nodes in Hn. apply in_map_iff in Hn. destruct Hn as [g [Eg Hg]]. subst n.
+        cbn [n_key n_name n_sub node_of_fnode] in *. apply String.eqb_eq in Hkn.
+        split.
+        - pose proof (Hsame g Hg) as Hs. rewrite Hkn, String.eqb_refl in Hs. simpl in Hs.
+          apply String.eqb_eq, Hs.
+        - pose proof (Hd g Hg) as Hdg. rewrite Hkn, Ec in Hdg. simpl in Hdg.
+          apply andb_true_iff in Hdg as [Hl _]. unfold is_leaf_sel in Hl. destruct (fn_sub g); [discriminate | reflexivity]. }
+      assert (Hss : sub_scopes ns = []).
+      { unfold sub_scopes. generalize (negb match ns with [_] => true | _ => false end). intro b0.
+        clear - Hall. induction ns as [|n r IH]; [reflexivity|]. simpl.
+        rewrite (proj2 (Hall n (or_introl eq_refl))). simpl. apply IH. intros m Hm. apply Hall. right; exact Hm. }
+      assert (Hs1 : sub_scopes [node_of_fnode false f] = []).
+      { unfold sub_scopes. simpl. unfold is_leaf_sel in Hleaf. destruct (fn_sub f); [discriminate | reflexivity]. }
+      destruct (jlookup (field_key f) kv) as [v|].
+      * destruct ns as [|n0 rest] eqn:Ens; [contradiction|].
+        destruct (Hall n0 (or_introl eq_refl)) as [En0 _]. rewrite En0 in H2.
+        rewrite Hss in H2. rewrite Hs1. exact H2.
+      * rewrite forallb_forall in H2. apply (H2 _ Hfns).
+Qed.
+
 Definition obj_conf (fc : nat) (S : schema) (frs : list fragdef) (tn : string) (sels : list sel)
            (kv : list (string * json)) : bool :=
   conf_obj_with (conf_val fc S frs) S tn (collect_scopes fc S frs tn [(false, sels)]) kv.
@@ -74,12 +161,12 @@ Definition obj_conf (fc : nat) (S : schema) (frs : list fragdef) (tn : string) (
   Proof. induction 1; intro HR; simpl; [reflexivity|]. f_equal; auto. Qed.
 
 
-Lemma sels_ok_inv g cov C S frs abs rt r sels :
-  sels_ok g cov C S frs abs rt r sels = true ->
+Lemma sels_ok_inv g cov C S frs mx abs rt r sels :
+  sels_ok g cov C S frs mx abs rt r sels = true ->
   exists g' fns, g = Datatypes.S g' /\ flatten g' S frs rt r sels = Some fns /\
-             keys_ok C (map field_key fns) = true /\
+             keys_okG cov C fns = true /\
              (cov = true -> NoDup (map (fun f => py_field_name C (field_key f)) fns)) /\
-             forallb (field_ok (sels_ok g' cov C S frs) g' cov S abs rt r) fns = true.
+             forallb (field_ok (sels_ok g' cov C S frs mx) g' cov S mx abs rt r) fns = true.
 Proof.
   destruct g as [|g']; [discriminate|]. simpl. intro H.
   destruct (flatten g' S frs rt r sels) as [fns|] eqn:Ef; [| discriminate].
@@ -92,33 +179,32 @@ Proof. unfold keys_ok. intro H. apply andb_true_iff in H as [H _]. apply nodupb_
 
 Lemma obj_conf_inv fc S frs tn sels kv C g r fns :
   obj_conf fc S frs tn sels kv = true -> flatten g S frs tn r sels = Some fns ->
-  keys_ok C (map field_key fns) = true ->
+  keys_okD C fns = true ->
   (forall p, In p kv -> In (fst p) (map field_key fns)) /\
   forallb (key_spec (conf_val fc S frs) S tn kv) fns = true.
 Proof.
   unfold obj_conf, conf_obj_with. intros H Hfl Hk.
   destruct (collect_scopes fc S frs tn [(false, sels)]) as [l|] eqn:E; [| discriminate H].
   rewrite (collect_scopes_flat _ _ _ _ _ _ _ _ _ Hfl E) in H.
-  rewrite conf_obj_flat in H by (eapply keys_ok_nodup; eauto).
-  simpl in H. apply andb_true_iff in H as [H1 H2]. split; [| exact H2].
-  intros p Hp. rewrite forallb_forall in H1. apply mem_In, H1, Hp.
+  unfold keys_okD in Hk. apply andb_true_iff in Hk as [Hd _].
+  apply (conf_obj_flat_dup _ _ _ _ _ Hd H).
 Qed.
 
-Lemma sels_ok_ok_inv g cov C S frs : forall b rt r sels,
-  sels_ok g cov C S frs b rt r sels = true -> no_spread g sels = true ->
-  exists g' fns, flatten g' S frs rt r sels = Some fns /\ keys_ok C (map field_key fns) = true /\
+Lemma sels_ok_ok_inv g cov C S frs mx : forall b rt r sels,
+  sels_ok g cov C S frs mx b rt r sels = true -> no_spread g sels = true ->
+  exists g' fns, flatten g' S frs rt r sels = Some fns /\ keys_okD C fns = true /\
                  (cov = true -> NoDup (map (fun f => py_field_name C (field_key f)) fns)).
 Proof.
-  intros b rt r sels H _. destruct (sels_ok_inv _ _ _ _ _ _ _ _ _ H) as [g' [fns [_ [H1 [H2 [H3 _]]]]]].
-  exists g', fns. auto.
+  intros b rt r sels H _. destruct (sels_ok_inv _ _ _ _ _ _ _ _ _ _ H) as [g' [fns [_ [H1 [H2 [H3 _]]]]]].
+  exists g', fns. split; [exact H1|]. split; [eapply keys_okG_D; eauto | exact H3].
 Qed.
 
 Lemma keys_ok_forall C (fns : list fnode) :
-  keys_ok C (map field_key fns) = true ->
+  keys_okD C fns = true ->
   forall f, In f fns -> String.eqb (py_field_name C (field_key f)) (field_key f)
                         || negb (mem (py_field_name C (field_key f)) (map field_key fns)) = true.
 Proof.
-  unfold keys_ok. intros H f Hf. apply andb_true_iff in H as [_ H]. rewrite forallb_forall in H.
+  unfold keys_okD. intros H f Hf. apply andb_true_iff in H as [_ H]. rewrite forallb_forall in H.
   apply (H (field_key f)). apply in_map, Hf.
 Qed.
 
@@ -135,8 +221,12 @@ Section Level.
   Variable mro : string -> option (list pfield).
   (* ok: the guard required of nested selection sets (sels_ok g cov C S frs true, or a larger language) *)
   Variable ok : bool -> string -> string -> list sel -> bool.
+  (* mx: the @mixin names allowed on fields; harm: what the class table guarantees about such extra bases *)
+  Variable mx : list string.
+  Variable harm : list string -> Prop.
+  Hypothesis harm_mx : forall eb, forallb (fun b => mem b mx) eb = true -> harm eb.
   Hypothesis ok_inv : forall b rt r sels, ok b rt r sels = true -> no_spread g sels = true ->
-      exists g' fns, flatten g' S frs rt r sels = Some fns /\ keys_ok C (map field_key fns) = true /\
+      exists g' fns, flatten g' S frs rt r sels = Some fns /\ keys_okD C fns = true /\
                      (cov = true -> NoDup (map (fun f => py_field_name C (field_key f)) fns)).
   Hypothesis W_opt : forall a j, W (AOpt a) j = is_null j || W a j.
   Hypothesis W_list : forall a j, W (AList a) j = match j with JArr l => forallb (W a) l | _ => false end.
@@ -149,11 +239,12 @@ Section Level.
   Hypothesis W_str : forall s, W AStr (JStr s) = true.
   Hypothesis W_cls : forall c j, W (AClass c) j = cls_step chk Wrec mro (AClass c) j.
   Hypothesis W_uni : forall alts j, W (AUnion alts) j = cls_step chk Wrec mro (AUnion alts) j.
-  Hypothesis mro_ok : forall c, lookup_class cs (c_name c) = Some c -> c_name c <> "BaseModel" ->
-                                c_bases c = ["BaseModel"] -> mro (c_name c) = Some (c_fields c).
+  Hypothesis mro_ok : forall c eb, lookup_class cs (c_name c) = Some c -> c_name c <> "BaseModel" ->
+                                   c_bases c = "BaseModel" :: eb -> harm eb -> mro (c_name c) = Some (c_fields c).
   Hypothesis fuel_pos : exists f2, fuel' = Datatypes.S f2.
-  Hypothesis W_class : forall pub cn2 rt2 r2 sels2 at2 tvs out2 pub2 fc kv,
-      parse_type_def fuel' C S frs pub cn2 r2 sels2 at2 [] (Some tvs) = Ok (out2, pub2, false) ->
+  Hypothesis W_class : forall pub cn2 rt2 r2 sels2 at2 eb2 tvs out2 pub2 fc kv,
+      harm eb2 ->
+      parse_type_def fuel' C S frs pub cn2 r2 sels2 at2 eb2 (Some tvs) = Ok (out2, pub2, false) ->
       ok at2 rt2 r2 sels2 = true -> In rt2 tvs ->
       (at2 = true -> has_typename sels2 = true) -> table_ok cs out2 ->
       obj_conf fc S frs rt2 sels2 kv = true ->
@@ -185,7 +276,7 @@ Section Level.
     (exists ifs fs, lookup_type S base = Some (DInterface ifs fs)) \/
     (exists ms, lookup_type S base = Some (DUnion ms)) ->
     abs_ok ok g cov S base sub = true ->
-    fn_mixins f = [] ->
+    harm (fn_mixins f) ->
     named_ann C S frs fuel' (Some sub) base false sc false = Ok (x, ctx) ->
     subs_run (parse_type_def fuel' C S frs) S ctx f sub (x_related ctx) pub0 exc pub1 false ->
     table_ok cs exc -> Q (JObj kv') ->
@@ -233,17 +324,17 @@ Section Level.
     change (In rt (tvs t0)) in Htv0.
     (* every related class comes from its own sub-run *)
     assert (Hruns : forall t, In t names -> exists pa qc qp,
-               parse_type_def fuel' C S frs pa (cname t) t sub true [] (Some (tvs t)) = Ok (qc, qp, false) /\
+               parse_type_def fuel' C S frs pa (cname t) t sub true (fn_mixins f) (Some (tvs t)) = Ok (qc, qp, false) /\
                incl qc exc).
     { intros t Ht.
       assert (Hrc : In {| r_class := cname t; r_type := t |} (x_related ctx))
         by (rewrite Hrel; apply in_map_iff; eauto).
       destruct (subs_run_each _ _ _ _ _ _ _ _ _ _ Hrun eq_refl _ Hrc) as [pa [qc [qp [Hq Hi]]]].
-      simpl in Hq. rewrite Hab, Emix in Hq. eauto. }
+      simpl in Hq. rewrite Hab in Hq. eauto. }
     (* the variant's class validates the object *)
     destruct (Hruns t0 Hin0) as [pa0 [qc0 [qp0 [Hq0 Hi0]]]].
     assert (Hchk : chk Wrec (mro (cname t0)) (JObj kv') = true).
-    { eapply (W_class pa0 (cname t0) rt t0 sub true (tvs t0)); eauto.
+    { eapply (W_class pa0 (cname t0) rt t0 sub true (fn_mixins f) (tvs t0)); eauto.
       eapply table_ok_incl; eauto. }
     destruct Hx as [[Hx Hn1] | Hx]; subst x.
     - rewrite W_cls. exact Hchk.
@@ -262,20 +353,20 @@ Section Level.
       assert (Hfacts : forall t, In t names -> exists pfl, mro (cname t) = Some pfl /\
                  forall pf vs, In pf pfl -> p_ann pf = ALit vs -> vs = sort_strings (tvs t)).
       { intros t Ht. destruct (Hruns t Ht) as [pa [qc [qp [Hq Hi]]]]. rewrite Ef in Hq.
-        destruct (variant_class_facts _ _ _ _ _ _ _ _ _ _ _ _ Hq Hns) as [fields0 [pfl [extra [_ [_ [Eqc Hlit]]]]]].
+        destruct (variant_class_facts _ _ _ _ _ _ _ _ _ _ _ _ _ Hq Hns) as [fields0 [pfl [extra [_ [_ [Eqc Hlit]]]]]].
         exists pfl. split; [| exact Hlit].
-        assert (Hc : In {| c_name := cname t; c_bases := ["BaseModel"]; c_fields := pfl |} exc)
+        assert (Hc : In {| c_name := cname t; c_bases := "BaseModel" :: fn_mixins f; c_fields := pfl |} exc)
           by (apply Hi; rewrite Eqc; left; reflexivity).
-        destruct (Htab _ Hc) as [Hl Hnbm]. apply (mro_ok _ Hl Hnbm eq_refl). }
+        destruct (Htab _ Hc) as [Hl Hnbm]. apply (mro_ok _ _ Hl Hnbm eq_refl Emix). }
       assert (Hpick : union_pick mro (map (fun t => AClass (cname t)) names) rt = Some (AClass (cname t0))).
       { apply (union_pick_variant mro cname tvs names rt t0 Hin0 Htv0 Huniq Hfacts).
         rewrite Ef in Hq0.
-        destruct (variant_class_facts _ _ _ _ _ _ _ _ _ _ _ _ Hq0 Hns)
+        destruct (variant_class_facts _ _ _ _ _ _ _ _ _ _ _ _ _ Hq0 Hns)
           as [fields0 [pfl0 [extra0 [Hres0 [Hrun0 [Eqc0 Hlit0]]]]]].
         exists pfl0.
-        assert (Hc : In {| c_name := cname t0; c_bases := ["BaseModel"]; c_fields := pfl0 |} exc)
+        assert (Hc : In {| c_name := cname t0; c_bases := "BaseModel" :: fn_mixins f; c_fields := pfl0 |} exc)
           by (apply Hi0; rewrite Eqc0; left; reflexivity).
-        destruct (Htab _ Hc) as [Hl Hnbm]. split; [apply (mro_ok _ Hl Hnbm eq_refl)|].
+        destruct (Htab _ Hc) as [Hl Hnbm]. split; [apply (mro_ok _ _ Hl Hnbm eq_refl Emix)|].
         (* the class's own typename field is the only one called typename__ *)
         pose proof (flatten_resolve_det _ _ _ _ _ _ _ _ _ Hfl0 Hres0) as E. inversion E; subst fields0.
         assert (Hadd : add_typename_field true fns0 = fns0).
@@ -307,7 +398,7 @@ Section Level.
   Qed.
 
   Lemma field_value cn rt r tv at_ f pf ctx pub0 exc pub1 k v :
-    field_ok ok g cov S at_ rt r f = true -> tv_ok rt tv ->
+    field_ok ok g cov S mx at_ rt r f = true -> tv_ok rt tv ->
     field_pf C S frs fuel' cn r tv at_ f = Ok (pf, ctx) ->
     parse_subs (parse_type_def fuel' C S frs) S ctx f pub0 = Ok (exc, pub1, false) ->
     table_ok cs exc -> Q v -> value_conf rt f k v ->
@@ -317,7 +408,7 @@ Section Level.
     destruct (field_pf_inv _ _ _ _ _ _ _ _ _ _ _ Hpf) as [t [a0 [il [Ht [Ha Hpf']]]]]. subst pf.
     cbn [p_ann mk_pfield].
     unfold field_ok in Hok. apply andb_true_iff in Hok as [Hmix Hok].
-    destruct (fn_mixins f) eqn:Emix; [| discriminate]. clear Hmix.
+    pose proof (harm_mx _ Hmix) as Emix. clear Hmix.
     unfold value_conf in Hv.
     destruct (String.eqb (fn_name f) "__typename") eqn:Etn.
     - apply String.eqb_eq in Etn.
@@ -380,11 +471,10 @@ Section Level.
         inversion Hrun as [| rc rcs pb qc qp qs cls pb' sk Hq Hrest]; subst.
         inversion Hrest; subst. simpl in Hq.
         match goal with H : _ || _ = false |- _ => apply orb_false_elim in H as [Hqs _] end. subst qs.
-        rewrite Emix in Hq.
         rewrite (typename_values_object S _ (base_name t)) in Hq;
           [| unfold is_object; rewrite El; reflexivity | reflexivity].
         rewrite W_cls. cbn [cls_step].
-        eapply (W_class _ _ (base_name t) (base_name t)); eauto.
+        eapply (W_class _ _ (base_name t) (base_name t) _ _ (fn_mixins f)); eauto.
         * left; reflexivity.
         * discriminate.
         * eapply table_ok_incl; [exact Htab|]. rewrite app_nil_r. apply incl_refl.
@@ -423,7 +513,7 @@ Section Level.
 
   Lemma level_facts cn rt r tv at_ fns pub pfl extra pub' k kv (K : list string) :
     fields_run (parse_type_def fuel' C S frs) C S frs fuel' cn r tv at_ fns pub pfl extra pub' false ->
-    forallb (field_ok ok g cov S at_ rt r) fns = true ->
+    forallb (field_ok ok g cov S mx at_ rt r) fns = true ->
     (* K: the response keys of the whole object (own fields and, with mixins, the base classes') *)
     (forall f, In f fns -> String.eqb (py_field_name C (field_key f)) (field_key f)
                            || negb (mem (py_field_name C (field_key f)) K) = true) ->
@@ -467,7 +557,7 @@ Section Level.
       - apply bind_ok in Ha. destruct Ha as [r0 [_ Ha]]. inversion Ha. }
     destruct Hlit as [Hn [v0 [vs Etv]]].
     unfold field_ok in Hok. rewrite Hn in Hok. simpl in Hok. rewrite Hc in Hok.
-    destruct (fn_mixins f); simpl in Hok; [| discriminate].
+    destruct (forallb (fun b => mem b mx) (fn_mixins f)); simpl in Hok; [| discriminate].
     destruct (fn_sub f); simpl in Hok; discriminate.
   Qed.
 
@@ -510,20 +600,20 @@ End Level.
 (* Main induction: acceptance                                                                    *)
 
 (* one level of the generator on a guarded selection set *)
-Lemma level_inv C S frs fuel pub cn rt r sels at_ tv out pub' g cov :
-  parse_type_def (Datatypes.S fuel) C S frs pub cn r sels at_ [] tv = Ok (out, pub', false) ->
-  sels_ok g cov C S frs at_ rt r sels = true ->
+Lemma level_inv C S frs fuel pub cn rt r sels at_ eb tv out pub' g cov mx :
+  parse_type_def (Datatypes.S fuel) C S frs pub cn r sels at_ eb tv = Ok (out, pub', false) ->
+  sels_ok g cov C S frs mx at_ rt r sels = true ->
   (at_ = true -> has_typename sels = true) ->
   exists f2 g' fns pfl extra,
     fuel = Datatypes.S f2 /\ g = Datatypes.S g' /\ flatten g' S frs rt r sels = Some fns /\
     fields_run (parse_type_def fuel C S frs) C S frs fuel cn r tv at_ fns (pub ++ [cn]) pfl extra pub' false /\
-    out = {| c_name := cn; c_bases := ["BaseModel"]; c_fields := pfl |} :: extra.
+    out = {| c_name := cn; c_bases := "BaseModel" :: eb; c_fields := pfl |} :: extra.
 Proof.
   intros H Hok Hat. simpl in H. apply body_inv in H.
   destruct H as [[_ [_ [_ H]]] | [M [fields0 [mixins [pfl [extra [Hres [Hrun [kept [Hk Hout]]]]]]]]]];
     [discriminate|].
   destruct (resolve_ok_fuel _ _ _ _ _ _ _ Hres) as [f2 Ef]. subst fuel.
-  destruct (sels_ok_inv _ _ _ _ _ _ _ _ _ Hok) as [g' [fns [Eg [Hfl _]]]].
+  destruct (sels_ok_inv _ _ _ _ _ _ _ _ _ _ Hok) as [g' [fns [Eg [Hfl _]]]].
   pose proof (flatten_resolve_det _ _ _ _ _ _ _ _ _ Hfl Hres) as E. inversion E; subst fields0 mixins.
   assert (Hadd : add_typename_field at_ fns = fns).
   { unfold add_typename_field. destruct at_; [| reflexivity].
@@ -535,43 +625,46 @@ Proof.
   exists f2, g', fns, pfl, extra. repeat split; auto.
 Qed.
 
-Theorem obj_accepts C S frs : forall fuel g cov pub cn rt r sels at_ tv out pub' cs fc kv n,
-  parse_type_def fuel C S frs pub cn r sels at_ [] tv = Ok (out, pub', false) ->
-  sels_ok g cov C S frs at_ rt r sels = true -> tv_ok rt tv ->
+Theorem obj_accepts C S frs : forall fuel g cov mx pub cn rt r sels at_ eb tv out pub' cs fc kv n,
+  parse_type_def fuel C S frs pub cn r sels at_ eb tv = Ok (out, pub', false) ->
+  sels_ok g cov C S frs mx at_ rt r sels = true -> tv_ok rt tv ->
   (at_ = true -> has_typename sels = true) -> table_ok cs out ->
+  mx_ok cs mx = true -> harmless cs eb ->
   obj_conf fc S frs rt sels kv = true ->
   n >= fuel + 2 ->
   accepts n cs (schema_enums S) (AClass cn) (JObj kv) = true.
 Proof.
   induction fuel as [|fuel IH];
-    intros g cov pub cn rt r sels at_ tv out pub' cs fc kv n Hp Hok Htv Hat Htab Hc Hn;
+    intros g cov mx pub cn rt r sels at_ eb tv out pub' cs fc kv n Hp Hok Htv Hat Htab Hmx Heb Hc Hn;
     [discriminate Hp|].
-  destruct (level_inv _ _ _ _ _ _ _ _ _ _ _ _ _ _ _ Hp Hok Hat)
+  destruct (level_inv _ _ _ _ _ _ _ _ _ _ _ _ _ _ _ _ _ Hp Hok Hat)
     as [f2 [g' [fns [pfl [extra [Ef [Eg [Hfl [Hrun Hout]]]]]]]]].
-  destruct (sels_ok_inv _ _ _ _ _ _ _ _ _ Hok) as [g'' [fns' [Eg' [Hfl' [Hkeys [_ Hfields]]]]]].
+  destruct (sels_ok_inv _ _ _ _ _ _ _ _ _ _ Hok) as [g'' [fns' [Eg' [Hfl' [Hkeys [_ Hfields]]]]]].
   rewrite Eg in Eg'. inversion Eg'; subst g''. clear Eg'.
   rewrite Hfl in Hfl'. inversion Hfl'; subst fns'. clear Hfl'.
+  apply keys_okG_D in Hkeys.
   destruct (obj_conf_inv _ _ _ _ _ _ C _ _ _ Hc Hfl Hkeys) as [Hkv Hspec].
   destruct n as [|[|[|[|n3]]]]; try lia.
   set (n1 := Datatypes.S (Datatypes.S n3)). set (n' := Datatypes.S n1).
-  assert (Hc0 : In {| c_name := cn; c_bases := ["BaseModel"]; c_fields := pfl |} out)
+  assert (Hc0 : In {| c_name := cn; c_bases := "BaseModel" :: eb; c_fields := pfl |} out)
     by (rewrite Hout; left; reflexivity).
   destruct (Htab _ Hc0) as [Hl Hnb]. simpl in Hl, Hnb.
   change (class_accepts (accepts n' cs (schema_enums S)) (mro_fields n' cs cn) (JObj kv) = true).
-  unfold n', n1. rewrite (mro_simple cs cn _ (Datatypes.S n3) Hl eq_refl Hnb). simpl c_fields.
+  unfold n', n1. rewrite (mro_harmless cs cn _ (Datatypes.S n3) eb Hl eq_refl Hnb Heb). simpl c_fields.
   fold n1.
   eapply (level_accepts C (accepts (Datatypes.S n1) cs (schema_enums S))).
   eapply (level_facts C S frs fuel g' cov cs (accepts (Datatypes.S n1) cs (schema_enums S)) (fun _ => True)
                       class_accepts (accepts n1 cs (schema_enums S)) (mro_fields n1 cs)
-                      (sels_ok g' cov C S frs) (sels_ok_ok_inv g' cov C S frs))
+                      (sels_ok g' cov C S frs mx) mx (harmless cs) (fun eb0 => mx_ok_harmless cs mx eb0 Hmx)
+                      (sels_ok_ok_inv g' cov C S frs mx))
     with (K := map field_key fns);
     try eassumption; try reflexivity; auto.
   - intros m j H1 H2. apply (scalar_leaf_accepts C S); auto.
   - intros m vs j H1 H2. eapply enum_leaf_accepts; eauto.
   - intros tvs s Hs. simpl. apply mem_In. apply (proj2 (sort_strings_In _ _)), Hs.
-  - intros c Hlc Hnc Hbc. unfold n1. apply mro_simple; auto.
+  - intros c eb0 Hlc Hnc Hbc Hh. unfold n1. eapply mro_harmless; eauto.
   - eauto.
-  - intros pb cn2 rt2 r2 sels2 at2 tvs out2 pub2 fc2 kv2 P1 P2 P3 P4 P5 P6 _.
+  - intros pb cn2 rt2 r2 sels2 at2 eb2 tvs out2 pub2 fc2 kv2 P0 P1 P2 P3 P4 P5 P6 _.
     change (accepts (Datatypes.S n1) cs (schema_enums S) (AClass cn2) (JObj kv2) = true).
     eapply IH; eauto.
     + right. eauto.
@@ -598,48 +691,51 @@ Proof.
   destruct (find _ (cf_scalars C)); reflexivity.
 Qed.
 
-Theorem obj_covers C S frs : forall fuel g pub cn rt r sels at_ tv out pub' cs fc kv n,
-  parse_type_def fuel C S frs pub cn r sels at_ [] tv = Ok (out, pub', false) ->
-  sels_ok g true C S frs at_ rt r sels = true -> tv_ok rt tv ->
+Theorem obj_covers C S frs : forall fuel g mx pub cn rt r sels at_ eb tv out pub' cs fc kv n,
+  parse_type_def fuel C S frs pub cn r sels at_ eb tv = Ok (out, pub', false) ->
+  sels_ok g true C S frs mx at_ rt r sels = true -> tv_ok rt tv ->
   (at_ = true -> has_typename sels = true) -> table_ok cs out ->
+  mx_ok cs mx = true -> harmless cs eb ->
   obj_conf fc S frs rt sels kv = true -> jwf (JObj kv) = true ->
   n >= fuel + 2 ->
   covers n cs (AClass cn) (JObj kv) = true.
 Proof.
   induction fuel as [|fuel IH];
-    intros g pub cn rt r sels at_ tv out pub' cs fc kv n Hp Hok Htv Hat Htab Hc Hwf Hn;
+    intros g mx pub cn rt r sels at_ eb tv out pub' cs fc kv n Hp Hok Htv Hat Htab Hmx Heb Hc Hwf Hn;
     [discriminate Hp|].
-  destruct (level_inv _ _ _ _ _ _ _ _ _ _ _ _ _ _ _ Hp Hok Hat)
+  destruct (level_inv _ _ _ _ _ _ _ _ _ _ _ _ _ _ _ _ _ Hp Hok Hat)
     as [f2 [g' [fns [pfl [extra [Ef [Eg [Hfl [Hrun Hout]]]]]]]]].
-  destruct (sels_ok_inv _ _ _ _ _ _ _ _ _ Hok) as [g'' [fns' [Eg' [Hfl' [Hkeys [Hnames Hfields]]]]]].
+  destruct (sels_ok_inv _ _ _ _ _ _ _ _ _ _ Hok) as [g'' [fns' [Eg' [Hfl' [Hkeys [Hnames Hfields]]]]]].
   rewrite Eg in Eg'. inversion Eg'; subst g''. clear Eg'.
   rewrite Hfl in Hfl'. inversion Hfl'; subst fns'. clear Hfl'.
-  destruct (obj_conf_inv _ _ _ _ _ _ C _ _ _ Hc Hfl Hkeys) as [Hkv Hspec].
+  cbn [keys_okG] in Hkeys. pose proof (keys_ok_D _ _ Hkeys) as HkeysD.
+  destruct (obj_conf_inv _ _ _ _ _ _ C _ _ _ Hc Hfl HkeysD) as [Hkv Hspec].
   destruct n as [|[|[|[|n3]]]]; try lia.
   set (n1 := Datatypes.S (Datatypes.S n3)). set (n' := Datatypes.S n1).
-  assert (Hc0 : In {| c_name := cn; c_bases := ["BaseModel"]; c_fields := pfl |} out)
+  assert (Hc0 : In {| c_name := cn; c_bases := "BaseModel" :: eb; c_fields := pfl |} out)
     by (rewrite Hout; left; reflexivity).
   destruct (Htab _ Hc0) as [Hl Hnb]. simpl in Hl, Hnb.
   change (class_covers (covers n' cs) (mro_fields n' cs cn) (JObj kv) = true).
-  unfold n', n1. rewrite (mro_simple cs cn _ (Datatypes.S n3) Hl eq_refl Hnb). simpl c_fields.
+  unfold n', n1. rewrite (mro_harmless cs cn _ (Datatypes.S n3) eb Hl eq_refl Hnb Heb). simpl c_fields.
   fold n1.
   simpl in Hwf. apply andb_true_iff in Hwf as [Hnd Hmem]. rewrite forallb_forall in Hmem.
   eapply (level_covers C (covers (Datatypes.S n1) cs)); eauto.
   - eapply (level_facts C S frs fuel g' true cs (covers (Datatypes.S n1) cs) (fun j => jwf j = true)
                         class_covers (covers n1 cs) (mro_fields n1 cs)
-                        (sels_ok g' true C S frs) (sels_ok_ok_inv g' true C S frs))
+                        (sels_ok g' true C S frs mx) mx (harmless cs) (fun eb0 => mx_ok_harmless cs mx eb0 Hmx)
+                        (sels_ok_ok_inv g' true C S frs mx))
       with (K := map field_key fns);
       try eassumption; try reflexivity; auto.
     + intros l Hl' x Hx. simpl in Hl'. rewrite forallb_forall in Hl'. apply Hl', Hx.
     + intros m j _ _. apply scalar_ann_cov.
-    + intros c Hlc Hnc Hbc. unfold n1. apply mro_simple; auto.
+    + intros c eb0 Hlc Hnc Hbc Hh. unfold n1. eapply mro_harmless; eauto.
     + eauto.
-    + intros pb cn2 rt2 r2 sels2 at2 tvs out2 pub2 fc2 kv2 P1 P2 P3 P4 P5 P6 P7.
+    + intros pb cn2 rt2 r2 sels2 at2 eb2 tvs out2 pub2 fc2 kv2 P0 P1 P2 P3 P4 P5 P6 P7.
       change (covers (Datatypes.S n1) cs (AClass cn2) (JObj kv2) = true).
       eapply IH; eauto.
       * right. eauto.
       * unfold n1. lia.
-    + apply keys_ok_forall, Hkeys.
+    + apply keys_ok_forall, HkeysD.
     + eapply table_ok_incl; [exact Htab|]. rewrite Hout. apply incl_tl, incl_refl.
   - eapply keys_ok_nodup; eauto.
   - apply nodupb_NoDup, Hnd.
@@ -650,9 +746,10 @@ Qed.
 
 (* the guard on the input of an operation: the root is an object type, the selection set is in the
    sub-language; [cov] adds pairwise distinct Python field names *)
-Definition op_ok (g : nat) (cov : bool) (C : cfg) (S : schema) (frs : list fragdef) (root : string)
-           (sels : list sel) : bool :=
-  is_object S root && sels_ok g cov C S frs false root root sels.
+(* mx: the @mixin names used on the operation (mixins) and on its fields *)
+Definition op_ok (g : nat) (cov : bool) (C : cfg) (S : schema) (frs : list fragdef) (mx mixins : list string)
+           (root : string) (sels : list sel) : bool :=
+  is_object S root && forallb (fun b => mem b mx) mixins && sels_ok g cov C S frs mx false root root sels.
 
 Lemma conf_op_obj fc S frs root sels j :
   is_object S root = true -> conf_op fc S frs root sels j = true ->
@@ -685,9 +782,9 @@ Proof.
   destruct (G _ _ _ H) as [rest Hr]. exists rest. auto.
 Qed.
 
-Lemma op_table fuel C S frs kind name sels own pub' cls :
-  op_parse fuel C S frs kind name [] sels = Ok (own, pub', false) ->
-  all_classes fuel C S frs (DOp kind name [] sels) = Ok cls ->
+Lemma op_table fuel C S frs kind name mixins sels own pub' cls :
+  op_parse fuel C S frs kind name mixins sels = Ok (own, pub', false) ->
+  all_classes fuel C S frs (DOp kind name mixins sels) = Ok cls ->
   no_basemodel own = true -> table_ok cls own.
 Proof.
   intros Hop Hall Hnb.
@@ -700,35 +797,37 @@ Proof.
     apply negb_true_iff, String.eqb_neq in Hnb. exact Hnb.
 Qed.
 
-Theorem op_accepts C S frs fuel kind name sels root own pub' cls g cov fc j n :
+Theorem op_accepts C S frs fuel kind name mixins sels root own pub' cls g cov mx fc j n :
   root_type_name S kind = Ok root ->
-  op_parse fuel C S frs kind name [] sels = Ok (own, pub', false) ->
-  all_classes fuel C S frs (DOp kind name [] sels) = Ok cls ->
-  op_ok g cov C S frs root sels = true -> no_basemodel own = true ->
+  op_parse fuel C S frs kind name mixins sels = Ok (own, pub', false) ->
+  all_classes fuel C S frs (DOp kind name mixins sels) = Ok cls ->
+  op_ok g cov C S frs mx mixins root sels = true -> mx_ok cls mx = true -> no_basemodel own = true ->
   conf_op fc S frs root sels j = true ->
   n >= fuel + 2 ->
   accepts n cls (schema_enums S) (AClass (pascal_s name)) j = true.
 Proof.
-  intros Hroot Hop Hall Hok Hnb Hconf Hn.
-  pose proof (op_table _ _ _ _ _ _ _ _ _ _ Hop Hall Hnb) as Htab.
-  unfold op_ok in Hok. apply andb_true_iff in Hok as [Hobj Hsels].
+  intros Hroot Hop Hall Hok Hmx Hnb Hconf Hn.
+  pose proof (op_table _ _ _ _ _ _ _ _ _ _ _ Hop Hall Hnb) as Htab.
+  unfold op_ok in Hok. apply andb_true_iff in Hok as [Hobj Hsels]. apply andb_true_iff in Hobj as [Hobj Hmix].
+  pose proof (mx_ok_harmless _ _ _ Hmx Hmix) as Hharm.
   destruct (conf_op_obj _ _ _ _ _ _ Hobj Hconf) as [kv [k [Ej Hc]]]. subst j.
   unfold op_parse in Hop. rewrite Hroot in Hop. simpl in Hop.
   eapply obj_accepts; eauto; [left; reflexivity | discriminate].
 Qed.
 
-Theorem op_covers C S frs fuel kind name sels root own pub' cls g fc j n :
+Theorem op_covers C S frs fuel kind name mixins sels root own pub' cls g mx fc j n :
   root_type_name S kind = Ok root ->
-  op_parse fuel C S frs kind name [] sels = Ok (own, pub', false) ->
-  all_classes fuel C S frs (DOp kind name [] sels) = Ok cls ->
-  op_ok g true C S frs root sels = true -> no_basemodel own = true ->
+  op_parse fuel C S frs kind name mixins sels = Ok (own, pub', false) ->
+  all_classes fuel C S frs (DOp kind name mixins sels) = Ok cls ->
+  op_ok g true C S frs mx mixins root sels = true -> mx_ok cls mx = true -> no_basemodel own = true ->
   conf_op fc S frs root sels j = true -> jwf j = true ->
   n >= fuel + 2 ->
   covers n cls (AClass (pascal_s name)) j = true.
 Proof.
-  intros Hroot Hop Hall Hok Hnb Hconf Hwf Hn.
-  pose proof (op_table _ _ _ _ _ _ _ _ _ _ Hop Hall Hnb) as Htab.
-  unfold op_ok in Hok. apply andb_true_iff in Hok as [Hobj Hsels].
+  intros Hroot Hop Hall Hok Hmx Hnb Hconf Hwf Hn.
+  pose proof (op_table _ _ _ _ _ _ _ _ _ _ _ Hop Hall Hnb) as Htab.
+  unfold op_ok in Hok. apply andb_true_iff in Hok as [Hobj Hsels]. apply andb_true_iff in Hobj as [Hobj Hmix].
+  pose proof (mx_ok_harmless _ _ _ Hmx Hmix) as Hharm.
   destruct (conf_op_obj _ _ _ _ _ _ Hobj Hconf) as [kv [k [Ej Hc]]]. subst j.
   unfold op_parse in Hop. rewrite Hroot in Hop. simpl in Hop.
   eapply obj_covers; eauto; [left; reflexivity | discriminate].
